@@ -168,7 +168,7 @@ pub fn run(ctx: &Ctx) -> i32 {
     acc.cov_n("files", nfiles as u64);
 
     // (a) sequential histories
-    let nh = ctx.tier.pick(1000u64, 20000u64);
+    let nh = ctx.tier.pick(1000u64, 60000u64);
     run_workload(ctx, &mut acc, "sequential-histories", nh, |k, rng, acc| {
         let len = rng.range(20, 120);
         let small: Vec<usize> = (0..rng.range(2, 5)).map(|_| rng.below(nfiles)).collect();
@@ -205,7 +205,7 @@ pub fn run(ctx: &Ctx) -> i32 {
     });
 
     // (b) directory histories
-    let nd = ctx.tier.pick(400u64, 6000u64);
+    let nd = ctx.tier.pick(400u64, 20000u64);
     run_workload(ctx, &mut acc, "directory-histories", nd, |_k, rng, acc| {
         let fi = rng.below(nfiles);
         if fs.base[fi].values().any(|v| v.is_none()) {
